@@ -643,6 +643,9 @@ Proof. intros ->. rewrite <- N.add_assoc, nthN_app_skip, nthN_app_skip. reflexiv
 
 Lemma hexval_zero : hexval 0 = None. Proof. reflexivity. Qed.
 
+Ltac simp0 := repeat (progress (change (0 =? 0) with true; change (0 =? 37) with false;
+                                change (1 =? 0) with false; change (N.pred 1) with 0; cbv iota)).
+
 Lemma unesc_loop_spec : forall fuel r, nul_free r -> (length r < fuel)%nat ->
   forall w g rest i j, i = lenN w -> j = lenN w + lenN g ->
   exists junk,
@@ -655,14 +658,14 @@ Proof.
   rewrite (read_at w g (r ++ 0 :: rest) 0 j) by lia.
   destruct r as [|c r'].
   - (* terminator reached: s[i] = 0 *)
-    cbn [app nthN]. change (0 =? 0) with true. cbv iota. subst i.
+    cbn [app nthN]. simp0. subst i.
     destruct g as [|x g'].
     + exists []. cbn [app]. rewrite setN_app_at. cbn [unesc_list lenN app]. split; [f_equal; lia|lia].
     + exists (g' ++ [0]). cbn [app]. rewrite setN_app_at. cbn [unesc_list lenN app]. split.
       * f_equal; [|lia]. f_equal. f_equal. rewrite <- app_assoc. reflexivity.
       * rewrite lenN_app. cbn [lenN]. lia.
-  - inversion Hn as [|? ? Hc0 Hn']; subst c0 l.
-    cbn [app nthN]. change (0 =? 0) with true. cbv iota.
+  - pose proof (Forall_inv Hn) as Hc0. pose proof (Forall_inv_tail Hn) as Hn'. cbv beta in Hc0.
+    cbn [app nthN]. simp0.
     destruct (c =? 0) eqn:Ec0; [apply N.eqb_eq in Ec0; contradiction|].
     destruct (write_step w g c (r' ++ 0 :: rest)) as [G [HG HlG]].
     subst i. rewrite HG.
@@ -683,29 +686,29 @@ Proof.
       rewrite (read_at (w ++ [37]) G (r' ++ 0 :: rest) 0 (j + 1)) by lia.
       destruct r' as [|c1 r1].
       * (* '%' then NUL *)
-        cbn [app nthN]. change (0 =? 0) with true. cbv iota. change (0 =? 37) with false. cbv iota.
+        cbn [app nthN]. simp0.
         unfold fromhex at 1. rewrite hexval_zero.
         cbn [unesc_list] in *. change (negb (37 =? 37)) with false in *. cbv iota in *. exact Hcont.
-      * inversion Hn' as [|? ? Hc10 Hn1]; subst c0 l.
-        cbn [app nthN]. change (0 =? 0) with true. cbv iota.
+      * pose proof (Forall_inv_tail Hn') as Hn1.
+        cbn [app nthN]. simp0.
         cbn [unesc_list]. change (negb (37 =? 37)) with false. cbv iota.
         cbn [unesc_list] in Hcont. change (negb (37 =? 37)) with false in Hcont. cbv iota in Hcont.
         destruct (c1 =? 37) eqn:Ec1.
         -- (* %% *)
            apply N.eqb_eq in Ec1. subst c1. cbn [length] in Hlen.
            destruct (IH r1 Hn1 ltac:(lia) (w ++ [37]) (G ++ [37]) rest (lenN w + 1) (j + 2)
-                        ltac:(lia) ltac:(rewrite lenN_app; cbn [lenN]; lia)) as [junk [H1 H2]].
+                        ltac:(lia) ltac:(rewrite !lenN_app; cbn [lenN]; lia)) as [junk [H1 H2]].
            exists junk. rewrite <- !app_assoc in H1. cbn [app] in H1. rewrite <- !app_assoc. cbn [app].
            rewrite H1. split; [f_equal; cbn [lenN]; lia|].
            rewrite lenN_app in H2. cbn [lenN] in *. lia.
         -- destruct (fromhex c1) as [v1|] eqn:Ev1; [|exact Hcont].
            rewrite (read_at (w ++ [37]) G (c1 :: r1 ++ 0 :: rest) 1 (j + 2)) by lia.
-           cbn [nthN]. change (1 =? 0) with false. cbv iota. change (N.pred 1) with 0.
+           cbn [nthN]. simp0.
            destruct r1 as [|c2 r2].
-           ++ cbn [app nthN]. change (0 =? 0) with true. cbv iota.
+           ++ cbn [app nthN]. simp0.
               unfold fromhex at 1. rewrite hexval_zero. exact Hcont.
-           ++ inversion Hn1 as [|? ? Hc20 Hn2]; subst c0 l.
-              cbn [app nthN]. change (0 =? 0) with true. cbv iota.
+           ++ pose proof (Forall_inv_tail Hn1) as Hn2.
+              cbn [app nthN]. simp0.
               destruct (fromhex c2) as [v2|] eqn:Ev2; [|exact Hcont].
               cbv zeta.
               destruct ((0 <? v1 * 16 + v2) && (v1 * 16 + v2 <=? 255)) eqn:Ex; [|exact Hcont].
@@ -716,7 +719,7 @@ Proof.
                            ltac:(rewrite lenN_app; cbn [lenN]; lia)
                            ltac:(rewrite !lenN_app; cbn [lenN]; lia)) as [junk [H1 H2]].
               exists junk. rewrite <- !app_assoc in H1. cbn [app] in H1. rewrite H1.
-              split; [f_equal; [rewrite <- app_assoc; reflexivity|rewrite lenN_app; cbn [lenN]; lia]|].
+              split; [f_equal; try reflexivity; try (rewrite <- app_assoc; reflexivity); rewrite ?lenN_app; cbn [lenN]; lia|].
               rewrite lenN_app in H2. cbn [lenN] in *. lia.
 Qed.
 
@@ -730,4 +733,74 @@ Proof.
   destruct (unesc_loop_spec (S (length (r ++ 0 :: rest))) r Hn
               ltac:(rewrite app_length; cbn [length]; lia) [] [] rest 0 0 eq_refl eq_refl) as [junk [H1 H2]].
   exists junk. cbn [app lenN] in *. rewrite H1. split; [f_equal|]; lia.
+Qed.
+
+(* no table entry contains a NUL: the escaped form is again a C string *)
+Definition all_flag_tables_nul_check : bool :=
+  forallb (fun ft => forallb (fun c => forallb (fun x => negb (x =? 0)) (tbl_entry (snd ft) c)) all_bytes)
+          bm_rfc1738_all.
+Lemma all_flag_tables_nul_ok : all_flag_tables_nul_check = true.
+Proof. vm_compute. reflexivity. Qed.
+
+Lemma escaped_nul_free flags t s : rfc1738_tbl flags = Some t -> bytes_ok s -> nul_free (map_bytes t s).
+Proof.
+  intros Ht Hb. apply assoc_tbl_in in Ht.
+  pose proof all_flag_tables_nul_ok as H. unfold all_flag_tables_nul_check in H. rewrite forallb_forall in H.
+  specialize (H _ Ht). cbn [snd] in H.
+  pose proof (forallb_map_bytes (fun x => negb (x =? 0)) t s Hb (forallb_bytes _ H)) as Hx.
+  rewrite forallb_forall in Hx. apply Forall_forall. intros x Hin. specialize (Hx x Hin).
+  apply Bool.negb_true_iff, N.eqb_neq in Hx. exact Hx.
+Qed.
+
+(* the C string left in the buffer by unescape(escape(s)) is s; stated on the explicit buffer *)
+Definition unescaped_to (res : ures) (orig : bytes) (buflen : N) : Prop :=
+  exists junk, res = UOk (orig ++ 0 :: junk) (lenN orig) /\ lenN orig + lenN junk = buflen.
+
+Theorem rfc1738_unescape_escape flags s e : bytes_ok s -> escapes_percent flags = true ->
+  rfc1738_do_escape flags s = Some e ->
+  unescaped_to (rfc1738_unescape (e ++ [0])) (cstr s) (lenN e).
+Proof.
+  intros Hb He Hesc. unfold rfc1738_do_escape in Hesc.
+  destruct (rfc1738_tbl flags) as [t|] eqn:Et; [|discriminate]. injection Hesc as <-.
+  unfold rfc1738_escape_tbl.
+  pose proof (cstr_bytes_ok s Hb) as Hb'. pose proof (cstr_is_nul_free s) as Hn.
+  destruct (rfc1738_unescape_spec (map_bytes t (cstr s)) [] (escaped_nul_free flags t _ Et Hb')) as [junk [H1 H2]].
+  rewrite (unesc_list_map_bytes t (cstr s) Hb' Hn) in H1, H2
+    by (intros c Hc Hc0 _; exact (flag_table_rt flags t Et He c Hc Hc0)).
+  exists junk. rewrite app_nil_r in H1. split; assumption.
+Qed.
+
+Theorem rfc1738_unescape_escape_partial flags s e : bytes_ok s -> percent_free (cstr s) ->
+  rfc1738_do_escape flags s = Some e ->
+  unescaped_to (rfc1738_unescape (e ++ [0])) (cstr s) (lenN e).
+Proof.
+  intros Hb Hp Hesc. unfold rfc1738_do_escape in Hesc.
+  destruct (rfc1738_tbl flags) as [t|] eqn:Et; [|discriminate]. injection Hesc as <-.
+  unfold rfc1738_escape_tbl.
+  pose proof (cstr_bytes_ok s Hb) as Hb'. pose proof (cstr_is_nul_free s) as Hn.
+  destruct (rfc1738_unescape_spec (map_bytes t (cstr s)) [] (escaped_nul_free flags t _ Et Hb')) as [junk [H1 H2]].
+  rewrite (unesc_list_map_bytes t (cstr s) Hb' Hn) in H1, H2
+    by (intros c Hc Hc0 Hin; apply (flag_table_rt_nopct flags t Et c Hc Hc0);
+        unfold percent_free in Hp; rewrite Forall_forall in Hp; exact (Hp c Hin)).
+  exists junk. rewrite app_nil_r in H1. split; assumption.
+Qed.
+
+(* the flag sets that escape '%' / that do not, among those used in the tree *)
+Theorem flag_sets_classified :
+  map (fun ft => (fst ft, escapes_percent (fst ft))) bm_rfc1738_all =
+  [(0, false); (2, true); (3, true); (4, false); (7, true); (259, false); (387, false)].
+Proof. vm_compute. reflexivity. Qed.
+
+Definition cstring_of (res : ures) : option bytes :=
+  match res with UOk buf i => Some (takeN i buf) | _ => None end.
+
+Theorem rfc1738_unescape_escape_refuted :
+  forall flags, In flags [0; 4; 259; 387] ->
+  exists s e, bytes_ok s /\ nul_free s /\ rfc1738_do_escape flags s = Some e /\
+              cstring_of (rfc1738_unescape (e ++ [0])) = Some [65] /\ s <> [65].
+Proof.
+  intros flags Hin. exists [37; 52; 49], [37; 52; 49].
+  split; [repeat constructor|]. split; [repeat constructor; discriminate|].
+  cbn [In] in Hin. destruct Hin as [<-|[<-|[<-|[<-|[]]]]]; (split; [vm_compute; reflexivity|]);
+    (split; [vm_compute; reflexivity|discriminate]).
 Qed.
